@@ -595,13 +595,14 @@ pub struct ExploreStats {
     pub partial_chain_states: u64,
     pub err_transitions: u64,
     pub decoder_disagreements: u64,
+    pub intermittent: u64,
 }
 
 /// Breadth-first exploration up to `max_depth`; `owned` are the clause prefixes this check
 /// reports. Returns the statistics; violations go to `run`.
 pub fn explore(run: &mut Run, fam: &Family, max_depth: usize, cap_secs: f64, owned: &[&str]) -> ExploreStats {
     let t0 = Instant::now();
-    let mut st = ExploreStats { states: 1, transitions: 0, depth_completed: 0, capped: false, tainted: 0, foreign: BTreeMap::new(), counts: BTreeMap::new(), outcomes: 0, partial_chain_states: 0, err_transitions: 0, decoder_disagreements: 0 };
+    let mut st = ExploreStats { states: 1, transitions: 0, depth_completed: 0, capped: false, tainted: 0, foreign: BTreeMap::new(), counts: BTreeMap::new(), outcomes: 0, partial_chain_states: 0, err_transitions: 0, decoder_disagreements: 0, intermittent: 0 };
     let mut seen: HashSet<u128> = HashSet::new();
     let mut outcome_kinds: HashSet<u128> = HashSet::new();
 
@@ -663,7 +664,13 @@ pub fn explore(run: &mut Run, fam: &Family, max_depth: usize, cap_secs: f64, own
                         _ => false,
                     };
                     if !same {
-                        machinery(&format!("non-deterministic transition: [{}] then {}", part[*i].iter().map(|o| o.to_string()).collect::<Vec<_>>().join("; "), fam.alphabet[*j]));
+                        // not a verdict by itself; if the run ends without a violation of its own it
+                        // is a machinery failure (see the end of `explore`), otherwise the violation
+                        // stands (a defect may well be what makes the transition order-dependent)
+                        let mut g = NONDET.lock().unwrap_or_else(|e| e.into_inner());
+                        if g.is_none() {
+                            *g = Some(format!("non-deterministic transition: [{}] then {}", part[*i].iter().map(|o| o.to_string()).collect::<Vec<_>>().join("; "), fam.alphabet[*j]));
+                        }
                     }
                 }
                 out
@@ -725,8 +732,16 @@ pub fn explore(run: &mut Run, fam: &Family, max_depth: usize, cap_secs: f64, own
         frontier = next;
     }
     st.outcomes = outcome_kinds.len() as u64;
+    if let Some(m) = NONDET.lock().unwrap_or_else(|e| e.into_inner()).take() {
+        if run.violations.is_empty() {
+            machinery(&m);
+        }
+        run.set("nondeterministic_transition_seen", json!(m));
+    }
     st
 }
+
+static NONDET: std::sync::Mutex<Option<String>> = std::sync::Mutex::new(None);
 
 /// Returns true when a violation owned by this check was reported.
 fn handle_failures(run: &mut Run, fam: &Family, hist: &[Op], op: Option<&Op>, fails: &[Failure], owned: &[&str], st: &mut ExploreStats) -> bool {
@@ -774,10 +789,17 @@ fn handle_failures(run: &mut Run, fam: &Family, hist: &[Op], op: Option<&Op>, fa
                     };
                     confirmed = again.iter().any(|g| g.clause == f.clause);
                 }
+                // The oracle is a deterministic function of what the library returned, so a clause
+                // that fired did observe the real code misbehaving even when 8 fresh executions
+                // of the same history behave: the outcome then depends on something the history
+                // does not fix (hash order, random values inside the library). It is reported as
+                // an intermittent violation (nothing fires at all on a tree where the property
+                // holds).
+                let note = if confirmed { String::new() } else { " [intermittent: 8 further executions of this history did not show it; the outcome depends on hash order or random values inside the library]".to_string() };
                 if !confirmed {
-                    machinery(&format!("clause {} fired once but in none of 8 replays of [{}]: {}", f.clause, ops.join("; "), f.msg));
+                    st.intermittent += 1;
                 }
-                run.report(None, &f.clause, &format!("after [{}]: {}", ops.join("; "), f.msg), replay.clone());
+                run.report(None, &f.clause, &format!("after [{}]: {}{note}", ops.join("; "), f.msg), replay.clone());
                 reported = true;
             }
         } else {
@@ -802,6 +824,7 @@ pub fn stats_json(fam: &Family, st: &ExploreStats) -> serde_json::Value {
         "states_with_partially_rotated_keys": st.partial_chain_states,
         "transitions_returning_err": st.err_transitions,
         "wire_decoder_disagreements": st.decoder_disagreements,
+        "intermittent_violations": st.intermittent,
         "real_api_calls": st.counts,
     })
 }
